@@ -7,7 +7,7 @@
 (*      from every operand edge are compared.                                  *)
 EXTENDS PolyOps, TraceIO
 VARIABLE cs
-ClosedOK(e) == cs.ta \in {"Polygon", "MultiPolygon"} => \A i \in 1..Len(e.rings) : RingClosed(e.rings[i])
+ClosedOK(e) == cs.ta \in {"Polygon", "MultiPolygon", "PolygonFlat", "PolygonHoleFirst"} => \A i \in 1..Len(e.rings) : RingClosed(e.rings[i])
 F1Ok(e) == /\ e.ev = "op" /\ e.out = "ok" /\ e.integral
            /\ ClosedOK(e)
            /\ F1ResultOK(cs.op, cs.A, cs.B, e.rings, cs.w)
